@@ -267,6 +267,38 @@ theorem nesting_caps_fact :
     SdnsVerif.Gen.C12.max_cname_chase_depth ≤ 10 ∧ SdnsVerif.Gen.C12.default_maxdepth ≤ 30 ∧
     1 ≤ SdnsVerif.Gen.C12.default_maxdepth := by decide
 
+/-! ### DNSSEC operations per RRset -/
+
+/-- **Public-key operations per RRset never exceed `MaxRRsetSignatureChecks`**
+in enforce mode — for every number of RRSIGs on the RRset, every number of
+same-tag candidate keys per RRSIG, every order of signatures and keys and
+every position (or absence) of the valid one: the operations spent on the
+RRset (`ops`) equal the advance of the per-RRset counter, stay within the
+per-RRset cap, and the tree's aggregate signature counter stays within its
+budget. -/
+theorem ops_le_rrset_cap (c : SigCaps) (sigs : List (Nat × Option Nat)) (spent : Nat)
+    (hb : spent ≤ c.budget) :
+    let r := verifyRRset true c sigs 0 spent
+    r.1 ≤ c.rrset ∧ r.2.1 - spent = r.1 ∧ r.2.1 ≤ c.budget := by
+  have h := verifyRRset_spec c sigs 0 spent
+  simp only at h
+  intro r
+  have h2 := h.2.1 (Nat.zero_le _)
+  have h3 := h.2.2.1
+  have h4 := h.2.2.2 hb
+  refine ⟨h2, ?_, h4⟩
+  show (verifyRRset true c sigs 0 spent).2.1 - spent = (verifyRRset true c sigs 0 spent).1
+  omega
+
+/-- **… and the operations spent on one RRSIG never exceed `MaxDNSKEYCandidates`**
+(nor the number of eligible candidates), whatever the counters were before. -/
+theorem ops_le_candidate_cap (c : SigCaps) (hit : Option Nat) (k used spent : Nat) :
+    (tryCands true c hit k 0 used spent).1 - used ≤ c.cand ∧
+    (tryCands true c hit k 0 used spent).1 - used ≤ k := by
+  have h := tryCands_spec c hit k 0 used spent
+  simp only at h
+  exact ⟨by omega, h.2.2.1⟩
+
 /-! ### budget failures are request-local; shape of the over-budget reply -/
 
 /-- **Budget failures are never cacheable for other clients.** A failure is
@@ -394,6 +426,14 @@ example : f0.mu ≤ 64 * 6 := by decide
 example : TStep ⟨400, 3⟩ [{ frame := f0, credit := 2, room := 32 }]
     [{ frame := f0, credit := 3, room := 31 }, { frame := f0, credit := 1, room := 32 }] :=
   .spawn { frame := f0, credit := 2, room := 32 } f0 3 [] (by decide) (by decide) (by decide) (by decide)
+
+-- eight failing signatures × four colliding keys against caps 4 / 8: eight operations, then the RRset limit
+example : verifyRRset true ⟨4, 8, 32⟩ ((List.range 8).map fun _ => (4, none)) 0 0 = (8, 8, .work .rrsetSig) := by decide
+-- unmetered, the same RRset costs 32 operations
+example : (verifyRRset false ⟨4, 8, 32⟩ ((List.range 8).map fun _ => (4, none)) 0 0).1 = 32 := by decide
+-- the valid signature is third, its key second: 4 + 4 + 2 operations exceed the cap of 8 before it is reached
+example : verifyRRset true ⟨4, 8, 32⟩ [(4, none), (4, none), (4, some 1)] 0 0 = (8, 8, .work .rrsetSig) := by decide
+example : verifyRRset true ⟨4, 12, 32⟩ [(4, none), (4, none), (4, some 1)] 0 0 = (10, 10, .verified) := by decide
 
 -- a chase that took three hops, then the deadline passed: the next two hop attempts start nothing
 example : (chaseRun {} [.hop, .hop, .hop, .deadline, .hop, .hop]).started = 3 := by decide
